@@ -97,13 +97,18 @@ def gen_scenarios(spec, rng, n):
         if rng.random() < 0.3:
             # CONCURRENT flattened callers of one client (asyncio tasks, or real threads for the sync client) with
             # retryable faults and real backoff windows: every attempt of every call must carry ITS caller's arguments
-            nact = rng.choice([2, 2, 3])
+            nact = rng.choice([2, 2, 3, 3, 4])
             actors = [{"start": rng.choice([0.0, 0.0, 0.05, 0.4]) if a else 0.0, "ops": []} for a in range(nact)]
             prev = None
-            for j in range(nact + rng.randint(0, 2)):
-                fs, s, m = rng.choice(cands) if prev is None or rng.random() < 0.5 else prev
+            for j in range(nact + rng.randint(0, 3)):
+                fs, s, m = rng.choice(cands) if prev is None or rng.random() < 0.4 else prev
                 prev = (fs, s, m)
                 op = gen_ops(spec, rng, codec, fs, s, m, f"o{j}")[0]          # the kwargs form only
+                same = [o for a in actors for o in a["ops"] if (o["service"], o["method"]) == (s["name"], m["name"])]
+                if same and rng.random() < 0.35:
+                    # value coincidence: another caller passes EQUAL arguments (equal-valued requests are distinct calls)
+                    import copy
+                    op["kwargs"] = copy.deepcopy(rng.choice(same)["kwargs"])
                 T, pol, retry_T = c09.call_policy(spec, fs, s, m, {})
                 op["call"] = {}
                 if pol and (retry_T is None or retry_T >= 20.0) and rng.random() < 0.7:
